@@ -21,6 +21,7 @@ use crate::rng::Rng;
 pub fn fake_shell() {
     let mut script = String::new();
     std::io::stdin().read_to_string(&mut script).ok();
+    if let Ok(p) = std::env::var("SVH_FAKE_SCRIPT") { std::fs::write(p, script.as_bytes()).ok(); }
     let salt = regex::Regex::new(r"EXECDIVIDER::([A-Za-z0-9]+)::0::").unwrap().captures(&script).map(|c| c[1].to_string()).unwrap_or_default();
     let tpl = std::fs::read(std::env::var("SVH_FAKE_STREAM").unwrap()).unwrap_or_default();
     let needle = b"@SALT@";
@@ -70,8 +71,17 @@ pub fn case(r: &mut Rng, work: &Path, fake: &Path) -> String {
     let tpl = work.join("stream.tpl");
     std::fs::write(&tpl, &stream).unwrap();
     std::env::set_var("SVH_FAKE_STREAM", &tpl);
-    let mut cfg = TestCaseConfig::empty(); cfg.output_stream = Some(OutputStreamControl::Combined); cfg.keep_crlf = Some(true);
-    let tcs: Vec<TestCase> = (0..n).map(|i| TestCase { title: "t".into(), shell_expression: format!("echo {}", i), expectations: vec![], exit_code: None, line_number: 1, config: cfg.clone() }).collect();
+    // the script the executor compiles is dumped by the fake shell: expressions of every shape, streams combined or not, exported variables
+    let dump = work.join("script.dump");
+    let _ = std::fs::remove_file(&dump);
+    std::env::set_var("SVH_FAKE_SCRIPT", &dump);
+    let combined = r.chance(2, 3);
+    let mut cfg = TestCaseConfig::empty(); cfg.output_stream = Some(if combined { OutputStreamControl::Combined } else { OutputStreamControl::Stdout }); cfg.keep_crlf = Some(true);
+    if r.chance(1, 3) { for _ in 0..r.range(1, 3) { cfg.environment.insert(format!("K{}", r.below(4)), r.pick(&["v", "a b", "it's", "", "x!y", "é", "a=b,c/d.e+f-g_h", "$HOME `x`"]).to_string()); } }
+    let exprs: Vec<String> = (0..n).map(|i| match r.below(8) {
+        0 => format!("echo {}", i), 1 => "printf 'a\\nb'".to_string(), 2 => "cat <<EOF\nline\nEOF".to_string(), 3 => "echo \"q\" 'r' \\".to_string(),
+        4 => "first\n\nthird  ".to_string(), 5 => "é 漢 😂".to_string(), 6 => "echo '~~~~EXECDIVIDE'".to_string(), _ => format!("true {}\n", i) }).collect();
+    let tcs: Vec<TestCase> = (0..n).map(|i| TestCase { title: "t".into(), shell_expression: exprs[i].clone(), expectations: vec![], exit_code: None, line_number: 1, config: cfg.clone() }).collect();
     let refs: Vec<&TestCase> = tcs.iter().collect();
     let mut doc = DocumentConfig::empty(); doc.total_timeout = Some(Duration::from_secs(20));
     let ctx = ContextBuilder::default().work_directory(work.to_path_buf()).temp_directory(work.to_path_buf()).file(PathBuf::from("d.t")).config(doc).build().unwrap();
@@ -84,7 +94,12 @@ pub fn case(r: &mut Rng, work: &Path, fake: &Path) -> String {
     let seen: Vec<u8> = String::from_utf8_lossy(&stream).replace("@SALT@", "SALTsalt0123456789ab").into_bytes();
     let seen = if std::str::from_utf8(&stream).is_ok() { seen } else {
         let mut o = vec![]; let mut i = 0; while i < stream.len() { if stream[i..].starts_with(b"@SALT@") { o.extend(b"SALTsalt0123456789ab"); i += 6; } else { o.push(stream[i]); i += 1; } } o };
-    format!("F {} {}|{}", n, hex(&seen), out)
+    let script = std::fs::read(&dump).unwrap_or_default();
+    let salt = regex::bytes::Regex::new(r"EXECDIVIDER::([A-Za-z0-9]+)::0::").unwrap().captures(&script).map(|c| c[1].to_vec()).unwrap_or_default();
+    let script_n = if salt.is_empty() { script.clone() } else {
+        let mut o = vec![]; let mut i = 0; while i < script.len() { if script[i..].starts_with(&salt) { o.extend(b"SALTsalt0123456789ab"); i += salt.len(); } else { o.push(script[i]); i += 1; } } o };
+    let env_s = if cfg.environment.is_empty() { "-".to_string() } else { cfg.environment.iter().map(|(k, v)| format!("{}:{}", hex(k.as_bytes()), hex(v.as_bytes()))).collect::<Vec<_>>().join(",") };
+    format!("F {} {}|{}\nC {}|{}|{}|{}", n, hex(&seen), out, combined as u8, env_s, exprs.iter().map(|e| hex(e.as_bytes())).collect::<Vec<_>>().join(","), hex(&script_n))
 }
 
 pub fn main(args: &[String], w: &mut dyn Write) {
